@@ -48,7 +48,7 @@ def main():
         i = args.index("--out"); out = args[i + 1]; del args[i : i + 2]
     jobs = []
     for a in args:
-        a = a.rstrip("/")
+        a = os.path.abspath(a.rstrip("/"))
         if os.path.isdir(a):
             jobs.append((os.path.basename(a), os.path.join(a, "patch.diff"), props))
         else:
@@ -62,7 +62,7 @@ def main():
         json.dump(res, open(out, "w"), indent=1)
     if update:
         for a in args:
-            a = a.rstrip("/")
+            a = os.path.abspath(a.rstrip("/"))
             mp = os.path.join(a, "meta.json")
             r = res.get(os.path.basename(a))
             if os.path.isdir(a) and os.path.exists(mp) and r and r["violations"] is not None:
